@@ -414,8 +414,8 @@ class BaseTemplateFile(BaseTemplate):
             mtime = self.mtime()
 
             if mtime != self._v_last_read:
-                self._v_last_read = mtime
                 self._cooked = False
+                self._v_last_read = mtime
 
         if self._cooked is False:
             body = self.read()
